@@ -219,7 +219,7 @@ func mutate(t *rapid.T, root map[string]any) (string, []string) {
 		w    int
 	}
 	ops := []op{{"delete-elem", 2}, {"disc-mapping", 2}, {"delete", 4}, {"null", 3}, {"swap", 4}, {"drop-schema", 3}, {"schema-to-content", 2}, {"drop-items", 2}, {"server-var", 2},
-		{"bad-ref", 3}, {"cyclic-ref", 2}, {"extension", 2}, {"json-pointer-ref", 1}, {"path-param-mismatch", 1}, {"null-component", 1}, {"empty-security-requirement", 1}, {"forward-array-component", 1}, {"servers", 1}, {"bad-type", 2}, {"empty-map", 2}, {"param-missing", 2}, {"status-pattern", 1}, {"dup-path-var", 1}}
+		{"bad-ref", 3}, {"cyclic-ref", 2}, {"extension", 2}, {"json-pointer-ref", 1}, {"path-param-mismatch", 1}, {"null-component", 1}, {"empty-security-requirement", 1}, {"forward-array-component", 1}, {"servers", 2}, {"security-scheme", 2}, {"bad-type", 2}, {"empty-map", 2}, {"param-missing", 2}, {"status-pattern", 1}, {"dup-path-var", 1}}
 	var names []string
 	for _, o := range ops {
 		for i := 0; i < o.w; i++ {
@@ -498,8 +498,44 @@ func mutate(t *rapid.T, root map[string]any) (string, []string) {
 	case "servers":
 		root["servers"] = rapid.SampledFrom([]any{[]any{nil}, []any{map[string]any{"url": "/v1"}, nil}, []any{map[string]any{}}, []any{map[string]any{"url": nil}}, []any{map[string]any{"url": "{a}", "variables": map[string]any{"a": nil}}},
 			[]any{map[string]any{"url": "https://h.example/v1", "variables": map[string]any{"unused": nil}}}, []any{map[string]any{"url": "https://h.example/{a}", "variables": map[string]any{"a": map[string]any{"default": "v1"}, "unused": map[string]any{"default": float64(3)}}}},
-			[]any{map[string]any{"url": "/v1"}, map[string]any{"url": "/{b}", "variables": map[string]any{"b": nil}}}}).Draw(t, "servers_val")
+			[]any{map[string]any{"url": "/v1"}, map[string]any{"url": "/{b}", "variables": map[string]any{"b": nil}}},
+			// urls that net/url refuses (a variable left in the host because its declaration is gone, ...)
+			[]any{map[string]any{"url": "https://{tenant}.api.example.com/v2"}}, []any{map[string]any{"url": "https://{tenant}.api.example.com:{port}/v2", "variables": map[string]any{"tenant": map[string]any{"default": "acme"}}}},
+			[]any{map[string]any{"url": "http://[::1/v1"}}, []any{map[string]any{"url": "https://h.example/%zz"}}, []any{map[string]any{"url": "://h.example/v1"}}, []any{map[string]any{"url": "https://h.example:port/v1"}},
+			[]any{map[string]any{"url": "https://h.example/{a}", "variables": map[string]any{"a": map[string]any{"default": "%"}}}}, []any{map[string]any{"url": "\x7f://h"}}}).Draw(t, "servers_val")
 		return "servers", []string{"servers"}
+	case "security-scheme":
+		// schemes of every type, complete and with parts missing (goag uses few of their
+		// fields, but reads all of them)
+		flow := func(label string) any {
+			return rapid.SampledFrom([]any{map[string]any{"authorizationUrl": "https://a.example/auth", "tokenUrl": "https://a.example/token", "scopes": map[string]any{"read": "r"}},
+				map[string]any{"tokenUrl": "https://a.example/token", "scopes": map[string]any{}}, map[string]any{"scopes": map[string]any{"a": "b"}}, map[string]any{}, nil}).Draw(t, label)
+		}
+		flows := map[string]any{}
+		for _, f := range []string{"implicit", "password", "clientCredentials", "authorizationCode"} {
+			if rapid.Bool().Draw(t, "flow_"+f) {
+				flows[f] = flow("flow_val_" + f)
+			}
+		}
+		scheme := rapid.SampledFrom([]any{map[string]any{"type": "oauth2", "flows": flows}, map[string]any{"type": "oauth2"}, map[string]any{"type": "oauth2", "flows": nil},
+			map[string]any{"type": "openIdConnect"}, map[string]any{"type": "openIdConnect", "openIdConnectUrl": "https://a.example/.well-known/openid-configuration"},
+			map[string]any{"type": "apiKey"}, map[string]any{"type": "apiKey", "in": "header"}, map[string]any{"type": "apiKey", "name": "X-K"}, map[string]any{"type": "apiKey", "in": "body", "name": "k"},
+			map[string]any{"type": "http"}, map[string]any{"type": "http", "scheme": "digest"}, map[string]any{"type": "http", "scheme": "bearer", "bearerFormat": float64(1)}, map[string]any{"type": "mutualTLS"}, map[string]any{}}).Draw(t, "scheme_val")
+		comps, _ := root["components"].(map[string]any)
+		if comps == nil {
+			comps = map[string]any{}
+			root["components"] = comps
+		}
+		ss, _ := comps["securitySchemes"].(map[string]any)
+		if ss == nil {
+			ss = map[string]any{}
+			comps["securitySchemes"] = ss
+		}
+		ss["plantedScheme"] = scheme
+		if rapid.Bool().Draw(t, "scheme_used") {
+			root["security"] = []any{map[string]any{"plantedScheme": []any{}}}
+		}
+		return "security-scheme", []string{"components", "securitySchemes", "plantedScheme"}
 	case "bad-type":
 		if s, ok := pick(byKey("type", "format")); ok {
 			s.set(rapid.SampledFrom([]string{"null", "uuid", "decimal", "file", "float", "int8", ""}).Draw(t, "badtype"))
@@ -724,15 +760,34 @@ func c15Judge(self, dir string, doc map[string]any, client bool, cli string, via
 		switch {
 		case strings.Contains(stderr, "stack overflow") || strings.Contains(stderr, "stack exceeds"):
 			site = "stack-overflow"
+			// the frame at which the stack ran out is an arbitrary member (or leaf) of the
+			// recursion: name the recursion by the goag function that recurs most often
+			// (template execution if it is part of the cycle)
+			counts := map[string]int{}
 			for _, l := range strings.Split(stderr, "\n") {
-				if strings.Contains(l, "github.com/vkd/goag/") && !strings.Contains(l, "inproc") {
+				if strings.Contains(l, "github.com/vkd/goag/") && !strings.Contains(l, "inproc") && !strings.HasPrefix(l, "\t") {
 					fn := strings.TrimSpace(l)
-					if j := strings.Index(fn, "("); j > 0 {
-						fn = fn[:j]
+					// (the argument list starts at the first parenthesis that does not follow a dot: generator.(*T).M(0x..))
+					for j := 1; j < len(fn); j++ {
+						if fn[j] == '(' && fn[j-1] != '.' {
+							fn = fn[:j]
+							break
+						}
 					}
-					site += ":" + strings.TrimPrefix(fn, "github.com/vkd/goag/")
-					break
+					counts[strings.TrimPrefix(fn, "github.com/vkd/goag/")]++
 				}
+			}
+			best := ""
+			for fn, n := range counts {
+				if best == "" || n > counts[best] || (n == counts[best] && fn < best) {
+					best = fn
+				}
+			}
+			if counts["generator.ExecuteTemplate"] >= 8 {
+				best = "generator.ExecuteTemplate"
+			}
+			if best != "" {
+				site += ":" + best
 			}
 			if strings.Contains(stderr, "kin-openapi") && !strings.Contains(stderr, "github.com/vkd/goag/") {
 				return c15Verdict{Class: "loader-rejected", Detail: "loader overflowed the stack"}
